@@ -77,6 +77,12 @@ def install(reg):
     def is_ns(which):
         def h(I, a, k, n):
             x = as_ns(a[0])
+            if x is None and (isinstance(a[0], Sym) and a[0].tag == "ns" or isinstance(a[0], Mod) and a[0].name == "xp"):
+                # an abstract namespace is one of the three, the same one for the whole path
+                key = ("namespace-kind", skey(a[0]))
+                if key not in I.path.ghost:
+                    I.path.ghost[key] = ("numpy", "torch", "jax")[I.path.choose(3, f"kind of {skey(a[0])}")]
+                return B(I.path.ghost[key] == which)
             return B(x is not None and x.f["name"].v == which)
         return h
     for w in ("numpy", "torch", "jax"):
